@@ -111,6 +111,30 @@ def sraise(obj, name, value):
     raise TraitError("setter refuses")
 
 
+def sr0():
+    raise TraitError("setter refuses")
+
+
+def sr1(value):
+    raise TraitError("setter refuses")
+
+
+def sr2(obj, value):
+    raise TraitError("setter refuses")
+
+
+def gr0():
+    raise AttributeError("getter refuses")
+
+
+def gr2(obj, name):
+    raise AttributeError("getter refuses")
+
+
+def gr3(obj, name, trait):
+    raise AttributeError("getter refuses")
+
+
 def graise(obj):
     raise AttributeError("getter refuses")
 
@@ -161,6 +185,15 @@ class H2(HasTraits):
     pvbad = Property(g1, s3, lambda o, n, v: _boom())
     psr = Property(g1, sraise)
     pgr = Property(graise, s2)
+    # failing getters / setters of every arity (each arity has its own C function)
+    psr0 = Property(g1, sr0)
+    psr1 = Property(g1, sr1)
+    psr2 = Property(g1, sr2)
+    pgr0 = Property(gr0, s2)
+    pgr2 = Property(gr2, s2)
+    pgr3 = Property(gr3, s2)
+    pvr1 = Property(g1, s3, lambda v: _boom())
+    pvr2 = Property(g1, s3, lambda o, v: _boom())
     ro_prop = Property(g1)
     sup = Supports(IFoo)
     ada = AdaptsTo(IFoo)
@@ -250,7 +283,8 @@ def make(RefObjFactories):
     sentinels = (("obj", o2), ("bigint", bigint), ("float", fl), ("str", st), ("tuple", tup), ("list", lst),
                  ("eq-raises", eqr), ("indexable", idx), ("bad-index", badidx), ("provides", foo),
                  ("adaptable", adaptable), ("class", cls), ("function", fn))
-    names = ("p0", "p1", "p2", "p3", "pv0", "pv1", "pv2", "pv3", "pvbad", "psr", "pgr", "ro_prop", "sup", "ada",
+    names = ("p0", "p1", "p2", "p3", "pv0", "pv1", "pv2", "pv3", "pvbad", "psr", "pgr", "psr0", "psr1", "psr2",
+             "pgr0", "pgr2", "pgr3", "pvr1", "pvr2", "ro_prop", "sup", "ada",
              "idef", "iyes", "ty", "th", "ca", "cx", "cf", "by", "bo", "en", "ma", "co", "tup", "post", "postbad",
              "eqm", "dbad", "dx", "ddx", "pr", "ev", "x")
     for name in names:
